@@ -234,6 +234,12 @@ class Verdict:
         os.makedirs(os.path.join(VERIF, "evidence"), exist_ok=True)
         with open(os.path.join(VERIF, "evidence", self.prop + ".json"), "w") as f:
             json.dump(ev, f, indent=1, sort_keys=True)
+        if len(self.violations) > 10:
+            hist = {}
+            for key, _, _ in self.violations:
+                k = key if len(key) < 90 else key[:90]
+                hist[k] = hist.get(k, 0) + 1
+            print("violations by class: " + json.dumps(dict(sorted(hist.items(), key=lambda x: -x[1])[:25])))
         seen = set()
         for key, what, path in self.violations:
             if path in seen:
